@@ -212,6 +212,9 @@ def report_group(ctx, rule, res, name, what):
     if d:
         ctx.ok(rule, "witness-%s#%d-const-obligations" % (name, d), "", "%d of %d %s discharged by rustc's constant evaluator" % (d, n, what))
     ctx.extra_obligations = getattr(ctx, "extra_obligations", 0) + n
+    ec = dict(getattr(ctx, "extra_cov", None) or {})
+    ec.setdefault("const_obligations", {})[name] = {"obligations": n, "discharged": d, "checker": "cargo +nightly check (rustc constant evaluator) on the generated witness crate"}
+    ctx.extra_cov = ec
 
 
 def report_cf(ctx, rule, res, prop):
